@@ -210,6 +210,15 @@ def main(tier, seed):
             pre = sx.chart_value(sc)
             queries(sc)       # (as a client would: traversal queries before the edit ...)
             coq, thunk, kind = random_op(rng, sc, uniq)
+            doomed = []
+            if kind == 'remove_state':
+                m = __import__('re').search(r'ERemoveState (.*)\)$', coq)
+                nm = next((x for x in sc._states if cstr(x) == m.group(1)), None) if m else None
+                if nm is not None:
+                    try:
+                        doomed = [sc._states[x] for x in [nm] + list(sc.descendants_for(nm))]
+                    except Exception:  # noqa
+                        doomed = []
             try:
                 with time_limit(10):
                     thunk()
@@ -223,7 +232,8 @@ def main(tier, seed):
             except Timeout:
                 qs = []
                 res = 'EOther:traversal of the resulting statechart does not terminate (after %s)' % res
-            cases.append(dict(pre=pre, op=coq, res=res, post=post, kind=kind, queries=qs))
+            cases.append(dict(pre=pre, op=coq, res=res, post=post, kind=kind, queries=qs,
+                              removed=[state_value(o) for o in doomed] if res == 'EOk' else []))
             opmix[kind] = opmix.get(kind, 0) + 1
             resmix[res.split(':')[0]] = resmix.get(res.split(':')[0], 0) + 1
             if res.startswith('EKey') or res.startswith('EOther'):
@@ -236,9 +246,9 @@ def main(tier, seed):
         with open(fn, 'w') as f:
             f.write(HEADER)
             f.write('Definition cases : list ecase := [\n')
-            f.write(';\n'.join('(mkECase %s\n %s %s\n %s\n %s)' % (
+            f.write(';\n'.join('(mkECase %s\n %s %s\n %s\n %s\n %s)' % (
                 tocoq.c_chart(c['pre']), c['op'], c['res'] if not c['res'].startswith('EOther') else 'EKeyError',
-                tocoq.c_chart(c['post']), c_queries(c['queries'])) for c in cases[s:s + shard]))
+                tocoq.c_chart(c['post']), clist(c['removed'], tocoq.c_state), c_queries(c['queries'])) for c in cases[s:s + shard]))
             f.write('\n].\nEval vm_compute in (check_ecases cases).\n')
         files.append(fn)
     res = coq_eval_files(PROP, files)
@@ -259,6 +269,8 @@ def main(tier, seed):
                 clause.append('the edit raised %s but changed the statechart (C16_atomic)' % c['res'])
             if m & 4:
                 clause.append('a successful edit of a sound statechart left it unsound (C16_preserve)')
+            if m & 32:
+                clause.append('remove_state left the removed state objects with other initial/memory values than the documented recursion (children first, each removal resets the references to the removed state) (C16_effect_remove_state)')
             if m & 16:
                 clause.append('depth_for/ancestors_for/descendants_for after the edit are not those of the resulting statechart (C16_effect)')
             if m & 3 and not clause:
